@@ -29,7 +29,7 @@ def cases(tier, seed):
     frames = list(range(len(FRAMES))) if tier == "thorough" else sorted({0, 4, 1 + seed % 7})
     out = []
     for fr in frames:
-        for what in ("line", "line_bounds", "plane", "radial", "radial_bounds", "curve_line", "curve_circle", "curve_interp", "surface", "free", "link_translation", "link_rotation", "link_symmetry", "inputs_mutated"):
+        for what in ("line", "line_bounds", "plane", "radial", "radial_bounds", "curve_line", "curve_circle", "curve_fullcircle", "curve_interp", "surface", "free", "link_translation", "link_rotation", "link_symmetry", "inputs_mutated"):
             out.append({"what": what, "frame": fr})
     return out
 
@@ -77,6 +77,18 @@ def run_case(case):
                 want = p1 + tt * u
                 if np.linalg.norm(cl.position - want) > tol * (1 + d):
                     bad("fresh-clamp-position", f"created at {pos.round(5).tolist()} -> {np.round(cl.position, 6).tolist()}, closest point of the line {want.round(6).tolist()}", s=round(s, 4), offset=off)
+        # the same on a model 100 times larger, created up to 6 segment lengths off the line
+        for scale in (1.0, 100.0):
+            q1, q2 = p1 * scale, p2 * scale
+            for s_ in (0.2 * d, 0.7 * d):
+                for off in (0.5 * d, 3.0 * d, 6.0 * d):
+                    pos = (p1 + s_ * u + off * side) * scale
+                    execs += 1
+                    cl = cb.LineClamp(pos, q1, q2, [b * scale for b in bounds]) if bounds else cb.LineClamp(pos, q1, q2)
+                    tt = min(max(s_, lo), hi)
+                    want = (p1 + tt * u) * scale
+                    if np.linalg.norm(cl.position - want) > tol * (1 + d) * scale:
+                        bad("fresh-clamp-position", f"scale {scale}: created {off * scale:.4g} off the line -> {np.round(cl.position, 5).tolist()}, closest point of the line {want.round(5).tolist()} (error {np.linalg.norm(cl.position - want):.3g})", s=round(s_, 4), offset=round(off, 4), scale=scale)
         cl = cb.LineClamp(p1 + 0.3 * d * u, p1, p2, bounds) if bounds else cb.LineClamp(p1 + 0.3 * d * u, p1, p2)
         for k in range(11):
             t = lo + (hi - lo) * k / 10
@@ -99,6 +111,17 @@ def run_case(case):
                 want = pos - off * nu
                 if np.linalg.norm(cl.position - want) > tol * 2:
                     bad("fresh-clamp-position", f"created at {pos.round(5).tolist()} -> {np.round(cl.position, 6).tolist()}, projection {want.round(6).tolist()}", k=k, offset=off)
+        for scale in (1.0, 100.0):
+            for k in range(3):
+                inpl = np.cross(nu, jitter_vec(k + 4))
+                for off in (0.5, 4.0):
+                    pos = (p0 + 2.5 * inpl + off * nu) * scale
+                    execs += 1
+                    np.random.seed(k)
+                    cl = cb.PlaneClamp(pos, p0 * scale, n)
+                    want = pos - off * scale * nu
+                    if np.linalg.norm(cl.position - want) > tol * 2 * scale:
+                        bad("fresh-clamp-position", f"scale {scale}: created {off * scale} off the plane -> error {np.linalg.norm(cl.position - want):.3g}", k=k, offset=off, scale=scale)
         np.random.seed(7)
         cl = cb.PlaneClamp(p0 + np.cross(nu, jitter_vec(1)), p0, n)
         for a in (-3.0, -0.5, 0.0, 0.7, 10.0):
@@ -138,13 +161,16 @@ def run_case(case):
             curve = cb.LineCurve(Pt(fr, [0.1, 0.2, 0.3]), Pt(fr, [1.5, -0.4, 0.9]), (0, 1))
         elif what == "curve_circle":
             curve = cb.CircleCurve(Pt(fr, [0.5, 0.5, 0.2]), Pt(fr, [1.7, 0.5, 0.2]), Vc(fr, [0, 0, 2.0]), (0, 5.0))
+        elif what == "curve_fullcircle":
+            # a closed curve (default bounds): its end point is its start point
+            curve = cb.CircleCurve(Pt(fr, [0.5, 0.5, 0.2]), Pt(fr, [1.7, 0.5, 0.2]), Vc(fr, [0.3, -0.2, 2.0]))
         else:
             curve = cb.LinearInterpolatedCurve(frame_apply(FRAMES[fr], [[0, 0, 0], [0.3, 0.1, 0], [1.0, 0.5, 0.2], [1.2, 1.5, 0.3]]))
         lo, hi = curve.bounds
         ts = [lo + (hi - lo) * i / 1000 for i in range(1001)]
         dense = np.array([curve.get_point(t) for t in ts])
         L = float(curve.length)
-        for q in (0.2, 0.55, 0.8):
+        for q in (0.2, 0.55, 0.8) + ((0.003, 0.997) if what == "curve_fullcircle" else ()):
             base = np.array(curve.get_point(lo + (hi - lo) * q))
             for off in (0.0, 0.02 * L, 0.1 * L):
                 pos = base + off * jitter_vec(int(q * 10))
@@ -157,6 +183,16 @@ def run_case(case):
                     bad("fresh-clamp-position", f"clamp position is {dcl:.6g} from the creation point, a sampled curve point is at {dmin:.6g}", q=q, offset=round(off, 4))
                 if on_curve > 2e-3 * (1 + L):
                     bad("position-off-manifold", f"fresh clamp {on_curve:.4g} away from the curve", q=q, offset=round(off, 4))
+        if what == "curve_line":
+            # a model in millimetres: a vertex exactly on a curve 100 long must be reported within the tolerance the
+            # optimizer uses to find the clamp's vertex (TOL = 1e-7), or the clamp cannot be added at all
+            long_curve = cb.LineCurve(Pt(fr, [0, 0, 0]), Pt(fr, [100.0, 0, 0]), (0, 1))
+            for x in (44.1, 0.7, 99.3, 12.345678):
+                execs += 1
+                pos = np.array(long_curve.get_point(x / 100.0))
+                cl = cb.CurveClamp(pos, long_curve)
+                if np.linalg.norm(cl.position - pos) > 1e-7:
+                    bad("fresh-clamp-position", f"created exactly on a line curve of length 100 at x={x}: reported {np.linalg.norm(cl.position - pos):.3g} away (junctions are matched within 1e-7)", x=x)
         cl = cb.CurveClamp(np.array(curve.get_point(lo + 0.3 * (hi - lo))), curve)
         for k in range(11):
             t = lo + (hi - lo) * k / 10
@@ -280,6 +316,18 @@ def run_case(case):
             for mag in (1e-3, 0.1, 1.0, 10.0):
                 for k in range(3):
                     moves.append(("move", mag, leader0 + mag * jitter_vec(k + 1)))
+        if what == "link_rotation":
+            # a follower far from the axis, leader turns from tiny to large: the follower turns by the same angle
+            far0 = origin + 40.0 * (follower0 - origin)
+            far = cb.RotationLink(leader0, far0, axis, origin)
+            for ang in (1e-9, 1e-8, 3e-8, 1e-6, 1e-3, 1.0, math.pi - 2e-8, -1e-8, -3e-8, -2.0):
+                execs += 1
+                far.leader = np.array(origin + rot(leader0 - origin, axis, ang))
+                far.update()
+                want = origin + rot(far0 - origin, axis, ang)
+                err = float(np.linalg.norm(far.follower - want))
+                if err > 1e-9 * float(np.linalg.norm(far0 - origin)):
+                    bad("follower-relation", f"leader turned by {ang}: follower is {err:.3g} away from the original follower turned by the same angle (it is {np.linalg.norm(far0 - origin):.3g} from the axis origin)", move="turn-far", amount=ang)
         for kind, amount, new_leader in moves:
             execs += 1
             arr = np.array(new_leader)
